@@ -44,6 +44,9 @@ def run(res, replay=None):
                           'bounds': [[0.25, 8.0], [0.25, 6.0]][: (2 if two else 1)], 'n_runs': rng.choice([1, 2, 3]),
                           'seed': rng.randrange(1, 10 ** 6), 'loss': 'poisson' if i % 3 == 2 else 'l2',
                           'x0': None if rng.random() < 0.5 else ([1.0, 1.0][: (2 if two else 1)]), 'cache': rng.random() < 0.5})
+        # explicit start values whose keys are written in a different order than the bounds (different boxes)
+        cases.append({'n': 3, 'times': [0.0, 0.5], 'two_params': True, 'truth': [3.0, 0.75], 'bounds': [[2.0, 8.0], [0.25, 1.5]],
+                      'n_runs': 1, 'seed': 11, 'loss': 'l2', 'x0': [4.0, 1.0], 'x0_reversed': True, 'cache': True})
     outs = C.run_impl_parallel('inference.py', [{'cases': [c]} for c in cases], timeout=2400)
     bodies, keep = [], []
     for c, o in zip(cases, outs):
@@ -112,12 +115,17 @@ def run(res, replay=None):
         fq = lambda pq: Fr(pq[0], pq[1])
         starts = [[fq(v) for v in row] for row in C.parse_term(vals[0])]
         obs = [cl['x0'] for cl in r['calls']]
+        if c.get('x0_reversed'):
+            obs = [list(reversed(o)) for o in obs]
         if len(starts) != len(obs) or any(not C.close(a, b, rel=Fr(1, 10 ** 14)) for ra, rb in zip(starts, obs) for a, b in zip(ra, rb)):
             res.violation('seeded start points differ from the model (x0 followed by uniform samples within the bounds)',
                           {'case': c, 'model': [[float(v) for v in row] for row in starts], 'observed': obs})
         px, pl_, nres = C.parse_term(vals[2])
         m = r['main']
-        if nres and ([float(fq(v)) for v in px[0]] != list(m['params'].values()) or float(fq(pl_[0])) != m['loss']):
+        mp_ = [float(fq(v)) for v in px[0]] if nres else []
+        if c.get('x0_reversed'):
+            mp_ = list(reversed(mp_))
+        if nres and (mp_ != list(m['params'].values()) or float(fq(pl_[0])) != m['loss']):
             res.violation('selected run differs from the model (first minimal loss)',
                           {'case': c, 'model_params': [float(fq(v)) for v in px[0]], 'model_loss': float(fq(pl_[0])), 'observed': m})
         res.sample({'case': c, 'result': m}, cap=2)
